@@ -24,6 +24,27 @@ type CacheCase struct {
 	Capacity   int   `json:"capacity"`
 	IntervalMs int   `json:"intervalMs"`
 	Ops        []COp `json:"ops"`
+	// Shape of the 16-byte items (what the underlays submit: the first 16 bytes
+	// of a segment): 0 text (legacy), 1 a common 12-byte prefix and a 4-byte
+	// tail (a FIXED nonce pattern pins up to 12 leading bytes), 2 a 4-byte head
+	// and a common 12-byte tail, 3 differ in one bit only
+	Shape int `json:"shape,omitempty"`
+}
+
+func itemBytes(shape, item int) []byte {
+	id := []byte{byte(item >> 24), byte(item >> 16), byte(item >> 8), byte(item)}
+	common := []byte("\x87\x00\xa0\xf1\x01\x6a\x44\x1d\x02\x02\x83\xd9")
+	switch shape {
+	case 1:
+		return append(append([]byte(nil), common...), id...)
+	case 2:
+		return append(append([]byte(nil), id...), common...)
+	case 3:
+		b := make([]byte, 16)
+		b[(item/8)%16] = 1 << uint(item%8)
+		return b
+	}
+	return []byte(fmt.Sprintf("item-%d-signature-bytes", item))
 }
 
 var tags = []string{"", "10.0.0.1:5000", "10.0.0.2:5000"}
@@ -33,6 +54,7 @@ func genCache(t *rapid.T) CacheCase {
 	n := rapid.IntRange(2, 40).Draw(t, "nOps")
 	pool := rapid.SampledFrom([]int{3, 6, 12, 30}).Draw(t, "pool")
 	tagMode := rapid.IntRange(0, 3).Draw(t, "tagMode")
+	c.Shape = rapid.IntRange(0, 3).Draw(t, "shape")
 	for i := 0; i < n; i++ {
 		op := COp{Item: rapid.IntRange(0, pool-1).Draw(t, "item")}
 		op.Sleep = rapid.SampledFrom([]int{0, 0, 0, 0, 1, 2, 3, 4, 5, 6}).Draw(t, "sleep")
@@ -90,7 +112,7 @@ func propCache(c CacheCase) (o pbt.Outcome) {
 				crossedTime = true
 			}
 		}
-		data := []byte(fmt.Sprintf("item-%d-signature-bytes", op.Item))
+		data := itemBytes(c.Shape, op.Item)
 		st := items[op.Item]
 		if st == nil {
 			st = &itemState{others: map[int]bool{}, tagsUsed: map[int]bool{}}
@@ -170,6 +192,7 @@ func propCache(c CacheCase) (o pbt.Outcome) {
 	o.Label("obligations>0=%v", obligations > 0)
 	o.Label("crossedSize=%v", crossedSize)
 	o.Label("crossedTime=%v", crossedTime)
+	o.Label("itemShape=%d", c.Shape)
 	return
 }
 
